@@ -134,7 +134,20 @@ class CoroutineProcessor(Processor):
         if state != CoroutineState.TERMINATED:
             raise ValueError('Cannot start the same generator twice')
 
-        self._active_queue.append(generator)
+        if generator in self._generators:
+            # Only possible while a kill is pending: the generator is
+            # still queued. Cancel the kill instead of queueing it twice.
+            self._kill_queue.discard(generator)
+            waiting_gen = self._generators[generator]
+            if waiting_gen is not None:
+                # It was paused: stop waiting and resume it as active
+                self._wait_queue = [waiting for waiting in self._wait_queue
+                                    if waiting is not waiting_gen]
+                heapq.heapify(self._wait_queue)
+                self._active_queue.append(generator)
+        else:
+            self._active_queue.append(generator)
+
         self._generators[generator] = None
         promise = CoroutinePromise(generator, self)
         self._promises[generator] = promise
